@@ -78,6 +78,8 @@ func Run(a common.Args) {
 		d.r = common.TraceRand(a.Seed, id)
 		if i%6 == 5 {
 			d.dust(id, a)
+		} else if i%6 == 2 {
+			d.drip(id, a)
 		} else {
 			d.random(id, a)
 		}
@@ -121,6 +123,75 @@ func (d *drv) dust(id int, a common.Args) {
 		}
 	}
 	d.at(start + dur + 1)
+	d.poolOp(owner, "trigger", p)
+	w.EndBlock()
+}
+
+// drip: destinations that are owed a FRACTION of a token per second (amount / duration not an integer:
+// 0.1 .. 2.5 tokens per second) are paid very often: a run of consecutive one-second block times, each with
+// an owner's trigger or a destination's own unlock (some seconds skipped, some with two payments).  Every
+// payment re-anchors the schedule at the last non-zero payment, so whatever a payment gives beyond the
+// straight line (rounding up, a wrong anchor ...) adds up over the run instead of staying below one unit.
+// The run starts at the pool's start, inside the period, or so that it ends at the expiry; a final trigger
+// after the expiry pays the rest.
+func (d *drv) drip(id int, a common.Args) {
+	d.reset(id, "drip", map[string]interface{}{"seed": a.Seed, "steps": a.Steps})
+	w, r := d.w, d.r
+	owner := d.clients[0]
+	dur := d.pick(600, 1000, 3600)
+	frac := []int64{10, 25, 40, 50, 60, 75, 90, 110, 150, 250} // hundredths of a token per second
+	nd := 1 + r.Intn(2)
+	var ds []destSpec
+	var keys []*world.Key
+	sum := uint64(0)
+	for i := 0; i < nd; i++ {
+		am := uint64(dur*frac[r.Intn(len(frac))]/100 + d.pick(0, 0, 1, 7))
+		k := d.clients[1+i]
+		keys = append(keys, k)
+		ds = append(ds, destSpec{k.ID, am})
+		sum += am
+	}
+	d.add(owner, ds, sum+uint64(d.pick(0, 0, 50)), d.now()+d.pick(0, 0, 30), dur)
+	if len(d.pools) == 0 {
+		w.EndBlock()
+		return
+	}
+	p := d.pools[len(d.pools)-1]
+	st := d.snapshot(p.id)
+	start := st.Start - d.t0
+	n := int64(a.Steps)
+	if n < 8 {
+		n = 8
+	}
+	if n > dur/4 {
+		n = dur / 4
+	}
+	var from int64
+	switch r.Intn(4) {
+	case 0:
+		from = start // from the very first second
+	case 1:
+		from = start + dur - n + d.pick(0, 2) // into / across the expiry
+	default:
+		from = start + 1 + r.Int63n(dur-n-1)
+	}
+	for t := from; t < from+n; t++ {
+		if r.Intn(10) == 0 {
+			continue
+		}
+		d.at(t)
+		k := keys[r.Intn(len(keys))]
+		switch r.Intn(10) {
+		case 0, 1, 2:
+			d.poolOp(k, "unlock", p)
+		case 3:
+			d.poolOp(k, "unlock", p)
+			d.poolOp(owner, "trigger", p) // a second payment at the same block time
+		default:
+			d.poolOp(owner, "trigger", p)
+		}
+	}
+	d.at(start + dur + d.pick(0, 1, 60))
 	d.poolOp(owner, "trigger", p)
 	w.EndBlock()
 }
